@@ -659,3 +659,272 @@ Qed.
 
 Theorem reference_language_refuted : exists s r, rest_of (run G_xml R nt_reference s) = Some r /\ W.spec_reference s = None /\ ref_D04 s = true.
 Proof. exists [38;59]%N, []. repeat split; vm_compute; reflexivity. Qed.
+(** ** loop-free, call-free expressions never run out of fuel *)
+Fixpoint simple (e : pexpr) : bool :=
+  match e with
+  | Tag _ | Chars0 _ | Chars1 _ => true
+  | Seq a b | SeqL a b | SeqR a b | Alt a b => simple a && simple b
+  | Opt e | Recognize e | Map _ e | TakeUntil e _ | TakeExcept e _ => simple e
+  | _ => false
+  end.
+
+Lemma simple_no_oof e : simple e = true -> forall f s, denote G_xml f e s <> Oof.
+Proof.
+  induction e as [a|p|p|a IHa b IHb|a IHa b IHb|a IHa b IHb|a IHa b IHb|e IHe|e IHe|e IHe|sp IHs e IHe|sp IHs e IHe
+                 |e IHe|l e IHe|e IHe pat|e IHe pat|p1 p2 e IHe|n];
+    cbn [simple]; intros Hs f s; try discriminate; rewrite denote_eq; cbn [den1];
+    try (apply andb_true_iff in Hs; destruct Hs as [Ha Hb]).
+  - destruct (prefix a s); discriminate.
+  - destruct (span (eval p) s); discriminate.
+  - destruct (span (eval p) s) as [[|? ?] ?]; discriminate.
+  - specialize (IHa Ha f s). destruct (denote G_xml f a s) as [[t r]| |]; cbn [bind]; try discriminate; [|congruence].
+    specialize (IHb Hb f r). cbn [snd]. destruct (denote G_xml f b r) as [[t' r']| |]; cbn [bind]; try discriminate; congruence.
+  - specialize (IHa Ha f s). destruct (denote G_xml f a s) as [[t r]| |]; cbn [bind]; try discriminate; [|congruence].
+    specialize (IHb Hb f r). cbn [snd]. destruct (denote G_xml f b r) as [[t' r']| |]; cbn [bind]; try discriminate; congruence.
+  - specialize (IHa Ha f s). destruct (denote G_xml f a s) as [[t r]| |]; cbn [bind]; try discriminate; [|congruence].
+    specialize (IHb Hb f r). cbn [snd]. destruct (denote G_xml f b r) as [[t' r']| |]; cbn [bind]; try discriminate; congruence.
+  - specialize (IHa Ha f s). specialize (IHb Hb f s). destruct (denote G_xml f a s) as [[t r]| |]; try discriminate; congruence.
+  - specialize (IHe Hs f s). destruct (denote G_xml f e s) as [[t r]| |]; try discriminate; congruence.
+  - specialize (IHe Hs f s). destruct (denote G_xml f e s) as [[t r]| |]; cbn [bind]; try discriminate; congruence.
+  - specialize (IHe Hs f s). destruct (denote G_xml f e s) as [[t r]| |]; cbn [bind]; try discriminate; congruence.
+  - specialize (IHe Hs f s). destruct (denote G_xml f e s) as [[t r]| |]; cbn [bind]; try discriminate; [|congruence].
+    destruct (find_sub pat (consumed s (snd (t, r)))); discriminate.
+  - specialize (IHe Hs f s). destruct (denote G_xml f e s) as [[t r]| |]; cbn [bind]; try discriminate; [|congruence].
+    destruct (ci_reject pat (consumed s (snd (t, r)))); discriminate.
+Qed.
+
+Lemma res_cases (x : res (tree * str)) : x <> Oof ->
+  (x = Fail /\ rest_of x = None) \/ (exists t r, x = Ok (t, r) /\ rest_of x = Some r).
+Proof. destruct x as [[t r]| |]; intros H; [right; eauto|left; auto|now elim H]. Qed.
+
+Lemma den_char_ref_cases f s :
+  (denote G_xml (S f) (NT nt_char_ref) s = Fail /\ charref_rest s = None) \/
+  (exists t r, denote G_xml (S f) (NT nt_char_ref) s = Ok (t, r) /\ charref_rest s = Some r).
+Proof.
+  rewrite <- den_char_ref with (f := f). apply res_cases.
+  rewrite den_NT, body_char_ref. apply simple_no_oof. reflexivity.
+Qed.
+
+(** [67] Reference, exactly *)
+Definition ref_rest (s : str) : option str :=
+  match ent_rest s with Some r => Some r | None => charref_rest s end.
+
+Lemma den_reference_cases f s :
+  (denote G_xml (S (S (S (S (S f))))) (NT nt_reference) s = Fail /\ ref_rest s = None) \/
+  (exists t r, denote G_xml (S (S (S (S (S f))))) (NT nt_reference) s = Ok (t, r) /\ ref_rest s = Some r).
+Proof.
+  rewrite den_NT, body_reference, den_Alt. unfold ref_rest.
+  destruct (den_entity_ref f s) as [[-> ->]|(t & r & -> & ->)]; [|right; eauto].
+  apply den_char_ref_cases.
+Qed.
+
+(** ** [10] AttValue *)
+Definition av_cls (q c : char) : bool :=
+  (W.isChar c && negb (N.eqb c 60) && negb (N.eqb c 38) && negb (N.eqb c q))%bool.
+
+Lemma av_cls_eval q c : eval (is_char_except [60;38;q]%N) c = av_cls q c.
+Proof.
+  rewrite is_char_except_equiv. unfold av_cls, W.isChar. cbn [existsb].
+  rewrite orb_false_r, !negb_orb. now rewrite !andb_assoc.
+Qed.
+
+Definition av_item (q : char) : pexpr :=
+  Alt (Map L_model_AttributeValue_from (xc_char_except1 [60;38;q]%N)) (Map L_model_AttributeValue_from (NT nt_reference)).
+
+Lemma body_att_value : body G_xml nt_att_value =
+  Alt (SeqR (Tag [34%N]) (SeqL (Many0 (av_item 34%N)) (Tag [34%N])))
+      (SeqR (Tag [39%N]) (SeqL (Many0 (av_item 39%N)) (Tag [39%N]))).
+Proof. reflexivity. Qed.
+
+Lemma av_item_run f q c t : av_cls q c = true ->
+  exists tr, denote G_xml f (av_item q) (c :: t) = Ok (tr, snd (span (av_cls q) (c :: t))).
+Proof.
+  intros Hc. unfold av_item. rewrite den_Alt, den_Map. unfold xc_char_except1. rewrite den_Chars1.
+  rewrite (span_ext _ (av_cls q) _ (av_cls_eval q)). cbn [span]. rewrite Hc.
+  destruct (span (av_cls q) t) as [a b]. cbn [bind fst snd]. eauto.
+Qed.
+
+Lemma av_item_ref f q s : match s with c :: _ => av_cls q c = false | [] => True end ->
+  (denote G_xml (S (S (S (S (S f))))) (av_item q) s = Fail /\ ref_rest s = None) \/
+  (exists tr r, denote G_xml (S (S (S (S (S f))))) (av_item q) s = Ok (tr, r) /\ ref_rest s = Some r).
+Proof.
+  intros Hc. unfold av_item. rewrite den_Alt, den_Map. unfold xc_char_except1. rewrite den_Chars1.
+  rewrite (span_ext _ (av_cls q) _ (av_cls_eval q)).
+  assert (Hs : fst (span (av_cls q) s) = []).
+  { destruct s as [|c t]; [reflexivity|]. cbn [span]. now rewrite Hc. }
+  destruct (span (av_cls q) s) as [a b]. cbn [fst] in Hs. subst a. cbn [bind].
+  rewrite den_Map. destruct (den_reference_cases f s) as [[-> ->]|(t & r & -> & ->)]; [left; auto|right; cbn [bind fst snd]; eauto].
+Qed.
+
+Lemma ref_rest_shape s r : ref_rest s = Some r -> (exists t, s = 38%N :: t) /\ length r < length s.
+Proof.
+  unfold ref_rest, ent_rest, charref_rest. destruct s as [|c t]; [discriminate|].
+  destruct (N.eqb_spec c 38) as [->|Hc].
+  - intros H. split; [eauto|]. destruct (span NC t) as [nm d] eqn:E.
+    destruct (span_spec _ _ _ _ E) as (-> & _ & _).
+    destruct (prefix [59%N] d) as [r'|] eqn:Ep.
+    + injection H as ->. apply prefix_spec in Ep. subst d. cbn [length]. rewrite app_length. cbn [length app]. lia.
+    + destruct (nm ++ d) as [|c2 u] eqn:Eu; [discriminate|]. cbn [andb] in H.
+      destruct (N.eqb c2 35); [|discriminate]. cbn [andb] in H.
+      assert (Hd : forall f v r0, digits_semi f v = Some r0 -> length r0 < length v).
+      { intros f v r0. unfold digits_semi. destruct (span f v) as [[|x ds] [|y r1]] eqn:Es; try discriminate.
+        destruct (N.eqb y 59); [|discriminate]. intros H0; injection H0 as ->.
+        destruct (span_spec _ _ _ _ Es) as (-> & _ & _). cbn [length]. rewrite app_length. cbn [length]. lia. }
+      destruct u as [|x v]; [discriminate|]. destruct (N.eqb x 120).
+      * apply Hd in H. cbn [length] in *. lia.
+      * apply Hd in H. cbn [length] in *. lia.
+  - destruct t as [|c2 u]; [discriminate|]. replace (N.eqb c 38) with false by (symmetry; now apply N.eqb_neq). discriminate.
+Qed.
+
+Lemma ref_rest_spec s : ref_D04 s = false -> ref_rest s = W.spec_reference s.
+Proof.
+  intros Hd. rewrite <- (reference_language_except_D04 s Hd). unfold run. destruct (fuel6 s) as [k ->].
+  destruct (den_reference_cases (S k) s) as [[-> ->]|(t & r & -> & ->)]; reflexivity.
+Qed.
+
+(** every reference of the remaining input is well-named: the side condition under which the parser's
+    AttValue and [10] agree *)
+Fixpoint no_D04 (s : str) : bool :=
+  match s with [] => true | _ :: t => negb (ref_D04 s) && no_D04 t end.
+
+Lemma no_D04_suffix a b : no_D04 (a ++ b) = true -> no_D04 b = true.
+Proof.
+  induction a as [|c a IH]; cbn [app]; [auto|]. cbn [no_D04]. intros H.
+  apply andb_true_iff in H. destruct H as [_ H]. now apply IH.
+Qed.
+
+Lemma suffix_of_shorter (s r : str) : (exists a, s = a ++ r) -> no_D04 s = true -> no_D04 r = true.
+Proof. intros [a ->]. apply no_D04_suffix. Qed.
+
+(** the rest of a reference is a suffix of the input *)
+Lemma ref_rest_suffix s r : ref_rest s = Some r -> exists a, s = a ++ r.
+Proof.
+  unfold ref_rest, ent_rest, charref_rest. destruct s as [|c t]; [discriminate|].
+  assert (Hd : forall f v r0, digits_semi f v = Some r0 -> exists a, v = a ++ r0).
+  { intros f v r0. unfold digits_semi. destruct (span f v) as [[|x ds] [|y r1]] eqn:Es; try discriminate.
+    destruct (N.eqb y 59); [|discriminate]. intros H0; injection H0 as ->.
+    destruct (span_spec _ _ _ _ Es) as (-> & _ & _). exists ((x :: ds) ++ [y]). now rewrite <- app_assoc. }
+  destruct (N.eqb c 38).
+  - destruct (span NC t) as [nm d] eqn:E. destruct (span_spec _ _ _ _ E) as (Et & _ & _).
+    destruct (prefix [59%N] d) as [r'|] eqn:Ep.
+    + intros H; injection H as ->. apply prefix_spec in Ep. subst d t. exists (c :: nm ++ [59%N]).
+      cbn [app]. now rewrite <- app_assoc.
+    + destruct t as [|c2 u]; [discriminate|]. destruct (N.eqb c2 35); cbn [andb]; [|discriminate].
+      destruct u as [|x v]; [discriminate|]. destruct (N.eqb x 120); intros H; apply Hd in H; destruct H as [a Ha].
+      * exists (c :: c2 :: x :: a). cbn [app]. now rewrite Ha.
+      * exists (c :: c2 :: a). cbn [app]. now rewrite Ha.
+  - destruct t as [|c2 u]; discriminate.
+Qed.
+
+Lemma spec_reference_amp t : W.spec_reference (38%N :: t) = option_map snd (W.p_ref t).
+Proof. unfold W.spec_reference. change (N.eqb 38 W.c_amp) with true. destruct (W.p_ref t) as [[rf r]|]; reflexivity. Qed.
+
+Lemma pieces_run q a : forallb (av_cls q) a = true -> forall b fuel, length a + length b < fuel ->
+  option_map snd (W.p_pieces fuel (Some q) W.c_lt (a ++ b)) = option_map snd (W.p_pieces (fuel - length a) (Some q) W.c_lt b).
+Proof.
+  unfold W.c_lt. induction a as [|c a IH]; cbn [forallb app length]; intros Ha b fuel Hf.
+  - now rewrite Nat.sub_0_r.
+  - apply andb_true_iff in Ha. destruct Ha as [Hc Ha]. destruct fuel as [|fuel]; [lia|].
+    cbn [W.p_pieces Nat.sub]. unfold av_cls in Hc. unfold W.c_amp.
+    apply andb_true_iff in Hc. destruct Hc as [Hc H4]. apply andb_true_iff in Hc. destruct Hc as [Hc H3].
+    apply andb_true_iff in Hc. destruct Hc as [H1 H2].
+    apply negb_true_iff in H2, H3, H4. rewrite H2, H3, H4, H1.
+    rewrite <- (IH Ha b fuel) by lia.
+    destruct (W.p_pieces fuel (Some q) 60%N (a ++ b)) as [[ps rest]|]; reflexivity.
+Qed.
+
+Definition S5 (f : nat) : nat := S (S (S (S (S f)))).
+
+Lemma av_loop f q : q = 34%N \/ q = 39%N -> forall n s, length s <= n -> no_D04 s = true ->
+  forall k acc fuel, length s < k -> length s < fuel ->
+  rest_of (bind (many_loop k (denote G_xml (S5 f) (av_item q)) s acc)
+                (fun x => bind (denote G_xml (S5 f) (Tag [q]) (snd x)) (fun y => Ok (fst x, snd y))))
+  = option_map snd (W.p_pieces fuel (Some q) W.c_lt s).
+Proof.
+  intros Hq. assert (Hq38 : N.eqb 38 q = false) by (destruct Hq; subst q; reflexivity).
+  assert (Hq60 : N.eqb 60 q = false) by (destruct Hq; subst q; reflexivity).
+  unfold S5, W.c_lt.
+  induction n as [|n IH]; intros s Hl Hd k acc fuel Hk Hf;
+    (destruct k as [|k]; [lia|]); (destruct fuel as [|fuel]; [lia|]); cbn [many_loop].
+  - destruct s; [|cbn in Hl; lia].
+    destruct (av_item_ref f q [] I) as [[E _]|(tr & r & _ & Hr)]; [|apply ref_rest_shape in Hr; destruct Hr as [[t Ht] _]; discriminate].
+    rewrite E. cbn [bind fst snd]. rewrite den_Tag. reflexivity.
+  - destruct s as [|c t].
+    { destruct (av_item_ref f q [] I) as [[E _]|(tr & r & _ & Hr)]; [|apply ref_rest_shape in Hr; destruct Hr as [[t Ht] _]; discriminate].
+      rewrite E. cbn [bind fst snd]. rewrite den_Tag. reflexivity. }
+    destruct (av_cls q c) eqn:Ec.
+    + (* a run of ordinary characters *)
+      destruct (av_item_run (S (S (S (S (S f))))) q c t Ec) as [tr E]. rewrite E.
+      destruct (span (av_cls q) (c :: t)) as [a b] eqn:Es. cbn [snd].
+      destruct (span_spec _ _ _ _ Es) as (Eab & Ha & _).
+      assert (Hne : a <> []) by (cbn [span] in Es; rewrite Ec in Es; destruct (span (av_cls q) t); injection Es as <- _; discriminate).
+      assert (Hlen : length b < length (c :: t)) by (rewrite Eab, app_length; destruct a; [now elim Hne|cbn [length]; lia]).
+      destruct (Nat.ltb_spec (length b) (length (c :: t))); [|lia].
+      pose proof Hd as Hdb. rewrite Eab in Hdb. apply no_D04_suffix in Hdb.
+      assert (Hlb : length b <= n) by (cbn [length] in Hl, Hlen; lia).
+      assert (Hla : length a + length b = length (c :: t)) by (now rewrite Eab, app_length).
+      rewrite (IH b Hlb Hdb k (tr :: acc) (S fuel - length a)) by lia.
+      rewrite Eab. symmetry. apply (pieces_run q a Ha b (S fuel)). lia.
+    + pose proof (av_item_ref f q (c :: t) Ec) as Hitem.
+      destruct (N.eqb_spec c 38) as [->|Hc38].
+      * (* a reference *)
+        assert (Hd0 : ref_D04 (38%N :: t) = false).
+        { cbn [no_D04] in Hd. apply andb_true_iff in Hd. destruct Hd as [Hd _]. now apply negb_true_iff in Hd. }
+        pose proof (ref_rest_spec _ Hd0) as Hrs. rewrite spec_reference_amp in Hrs.
+        cbn [W.p_pieces]. unfold W.c_amp. rewrite Hq38. change (N.eqb 38 60) with false. rewrite N.eqb_refl.
+        destruct Hitem as [[E Hr]|(tr & r & E & Hr)]; rewrite E.
+        -- pose proof (eq_trans (eq_sym Hrs) Hr) as Hp. clear Hrs. destruct (W.p_ref t) as [[rf t']|]; [discriminate|].
+           cbn [bind fst snd W.bind]. rewrite den_Tag. cbn [prefix]. rewrite (N.eqb_sym q 38), Hq38. reflexivity.
+        -- pose proof (eq_trans (eq_sym Hrs) Hr) as Hp. clear Hrs. destruct (W.p_ref t) as [[rf t']|]; [|discriminate]. cbn [option_map snd] in Hp.
+           injection Hp as ->. cbn [W.bind].
+           destruct (ref_rest_shape _ _ Hr) as [_ Hlen]. destruct (ref_rest_suffix _ _ Hr) as [pre Hpre].
+           cbn [length] in Hlen |- *. destruct (Nat.ltb_spec (length r) (S (length t))); [|lia].
+           pose proof Hd as Hdr. rewrite Hpre in Hdr. apply no_D04_suffix in Hdr.
+           cbn [length] in Hl, Hlen, Hf, Hk.
+           rewrite (IH r) with (fuel := fuel) by (try assumption; lia).
+           destruct (W.p_pieces fuel (Some q) 60%N r) as [[ps rest]|]; reflexivity.
+      * (* anything else ends the loop: the closing quote, or an error *)
+        destruct Hitem as [[E _]|(tr & r & _ & Hr)];
+          [|apply ref_rest_shape in Hr; destruct Hr as [[t0 Ht] _]; injection Ht as ->; now elim Hc38].
+        rewrite E. cbn [bind fst snd W.p_pieces]. rewrite den_Tag. cbn [prefix]. rewrite (N.eqb_sym q c).
+        unfold W.c_amp. destruct (N.eqb_spec c q) as [->|Hcq]; [reflexivity|].
+        cbn [rest_of]. destruct (N.eqb_spec c 60) as [->|Hc60]; [reflexivity|].
+        replace (N.eqb c 38) with false by (symmetry; now apply N.eqb_neq).
+        unfold av_cls in Ec. replace (N.eqb c 60) with false in Ec by (symmetry; now apply N.eqb_neq).
+        replace (N.eqb c 38) with false in Ec by (symmetry; now apply N.eqb_neq).
+        replace (N.eqb c q) with false in Ec by (symmetry; now apply N.eqb_neq).
+        cbn [negb] in Ec. rewrite !andb_true_r in Ec. rewrite Ec. reflexivity.
+Qed.
+
+Lemma av_quoted f q t : q = 34%N \/ q = 39%N -> no_D04 t = true ->
+  rest_of (denote G_xml (S5 f) (SeqL (Many0 (av_item q)) (Tag [q])) t)
+  = option_map snd (W.p_pieces (S (S (length t))) (Some q) W.c_lt t).
+Proof.
+  intros Hq Hd. rewrite den_SeqL, den_Many0.
+  apply (av_loop f q Hq (length t) t (le_n _) Hd (S (length t)) [] (S (S (length t)))); lia.
+Qed.
+
+Theorem att_value_language_except_D04 : forall s, no_D04 s = true ->
+  rest_of (run G_xml R nt_att_value s) = W.spec_attvalue s.
+Proof.
+  intros s Hd. unfold run. destruct (fuel6 s) as [k ->]. rewrite den_NT, body_att_value, den_Alt.
+  rewrite !den_SeqR, !den_Tag. unfold W.spec_attvalue, W.p_AttValue.
+  destruct s as [|c t]; [reflexivity|]. cbn [prefix length]. unfold W.isQuote, W.c_quot, W.c_apos.
+  assert (Hdt : no_D04 t = true) by (cbn [no_D04] in Hd; apply andb_true_iff in Hd; tauto).
+  rewrite (N.eqb_sym 34 c), (N.eqb_sym 39 c).
+  destruct (N.eqb_spec c 34) as [->|H34].
+  - cbn [bind fst snd orb]. change (N.eqb 34 39) with false. cbn [bind].
+    pose proof (av_quoted k 34%N t (or_introl eq_refl) Hdt) as Hq. unfold S5 in Hq.
+    match goal with |- _ = W.bind ?P' _ => match type of Hq with _ = option_map snd ?P => change P' with P end end.
+    match type of Hq with _ = option_map snd ?P => destruct P as [[ps r']|] end;
+      destruct (denote G_xml (S (S (S (S (S k))))) (SeqL (Many0 (av_item 34%N)) (Tag [34%N])) t) as [[tr r]| |];
+      cbn [bind fst snd rest_of option_map W.bind] in *; congruence.
+  - cbn [bind orb]. destruct (N.eqb_spec c 39) as [->|H39]; [|reflexivity].
+    cbn [bind fst snd]. rewrite rest_of_bind_id.
+    pose proof (av_quoted k 39%N t (or_intror eq_refl) Hdt) as Hq. unfold S5 in Hq.
+    rewrite Hq. match goal with |- _ = W.bind ?P' _ => match type of Hq with _ = option_map snd ?P => change P' with P; destruct P as [[ps r']|] end end; reflexivity.
+Qed.
+
+Theorem att_value_language_refuted : exists s r,
+  rest_of (run G_xml R nt_att_value s) = Some r /\ W.spec_attvalue s = None /\ no_D04 s = false.
+Proof. exists [34;38;59;34]%N, []. repeat split; vm_compute; reflexivity. Qed.
